@@ -1,5 +1,6 @@
 // UNIT tool: the command-line analysis src/analysis.rs (C17, evaluation half, plain mode)
 #![feature(allocator_api)]
+#![feature(pattern)]
 #![allow(unused_imports, dead_code, unused_variables, unused_mut, non_snake_case, unused_parens)]
 use vstd::prelude::*;
 use vstd::string::StringSliceAdditionalSpecFns;
@@ -18,6 +19,7 @@ verus! {
 
 //@include prelude/bn_model.rs
 //@include prelude/std_model.rs
+//@include prelude/weak_std.rs
 //@include spec/syntax.rs
 //@include spec/grammar.rs
 //@include spec/lex.rs
